@@ -1491,7 +1491,9 @@ def first_exception(o):
 def evaluate(chk, cases, model_ok, label):
     """cases: list of dict(files, case or None).  Runs real code, oracle, model; reports."""
     obs = []
-    for c in cases:
+    failing = set()        # indices of cases the spec oracle (or a crash) already condemned
+    for ci, c in enumerate(cases):
+        nviol = len(chk.violations) + len(chk.known_printed)
         o = observe(c["files"])
         chk.count()
         obs.append(o)
@@ -1521,6 +1523,8 @@ def evaluate(chk, cases, model_ok, label):
                 chk.violation("input", {"input": c["files"],
                                         "observed": "resolve_symbols reported only errors that error.split_errors hides: %r" % (o["s1_raw"],),
                                         "expected": "a visible error"}, key=HIDDEN_KEY)
+        if len(chk.violations) + len(chk.known_printed) != nviol:
+            failing.add(ci)
     if not model_ok:
         return obs
     idx = [i for i, o in enumerate(obs) if o["stage"] == "resolver"]
@@ -1540,11 +1544,13 @@ def evaluate(chk, cases, model_ok, label):
             chk.nontrivial(kind + ":" + json.dumps(cases[i]["files"], sort_keys=True))
         if diffs:
             dis += 1
-            chk.violation("correspondence",
+            # the disagreeing input was evaluated against the spec oracle above: if the real
+            # code is wrong there, that *is* the failing input
+            chk.violation("input" if i in failing else "correspondence",
                           {"input": cases[i]["files"], "model": a[:2000], "observed": diffs[:5],
                            "expected": "model_c12 RESOLVE == resolve_symbols/resolve_field_references",
                            "theorem_or_correspondence": "model_c12 RESOLVE vs symbol_resolver (%s)" % label},
-                          found_input=False)
+                          found_input=i in failing)
     chk.extra["traces_validated_against_impl"] = chk.extra.get("traces_validated_against_impl", 0) + len(idx)
     chk.extra["disagreements"] = chk.extra.get("disagreements", 0) + dis
     return obs
@@ -1675,7 +1681,7 @@ def run(tier):
     evaluate(chk, [{"files": f} for (f, _n) in CORPUS], model_ok, "corpus")
     evaluate(chk, [{"files": f} for f in FINDING_INPUTS.values()], model_ok, "finding inputs")
     r = common.rng("C12")
-    n = 350 if tier == "quick" else 6000
+    n = 350 if tier == "quick" else 4000
     cases, feats = generated_cases(r, n, 4 if tier == "quick" else 5)
     chk.extra["generator_features"] = feats
     obs = evaluate(chk, cases, model_ok, "generated")
